@@ -365,8 +365,20 @@ def validate_evidence(ev):
     return probs
 
 
+class quiet:
+    """Silence the implementation's print()s while it is driven in-process."""
+    def __enter__(self):
+        self._o = sys.stdout
+        sys.stdout = open(os.devnull, "w")
+    def __exit__(self, *a):
+        sys.stdout.close()
+        sys.stdout = self._o
+
+
 def main(run_fn_by_pid):
     import argparse
+    import logging
+    logging.disable(logging.CRITICAL)
     ap = argparse.ArgumentParser()
     ap.add_argument("pid")
     ap.add_argument("--tier", default=os.environ.get("VERIF_TIER", "quick"))
